@@ -342,6 +342,10 @@ def _rows(repo, col, fi, ex):
             dropped = None
             if dr is not None:
                 rng = dr.kw.get("index") or (dr.args[1] if len(dr.args) > 1 else None)
+                if rng is not None and rng.op == "mcall" and rng.name == "arange" and rng.args and rng.args[0].op == "free":
+                    rng = T("call", "range", list(rng.args[1:]), dict(rng.kw), rng.node)
+                if rng is not None and rng.op == "call" and rng.name == "list" and len(rng.args) == 1:
+                    rng = rng.args[0]
                 if rng is not None and rng.op == "call" and rng.name == "range" and len(rng.args) == 2:
                     dropped = (term_rat(rng.args[0], leaf), term_rat(rng.args[1], leaf))
                 else:
@@ -402,6 +406,10 @@ def _rows(repo, col, fi, ex):
     ok = False
     if dr is not None:
         rng = dr.kw.get("index")
+        if rng is not None and rng.op == "mcall" and rng.name == "arange" and rng.args and rng.args[0].op == "free":
+            rng = T("call", "range", list(rng.args[1:]), dict(rng.kw), rng.node)   # np.arange(a, b) lists the same labels as range(a, b)
+        if rng is not None and rng.op == "call" and rng.name == "list" and len(rng.args) == 1:
+            rng = rng.args[0]
         ok = rng is not None and rng.op == "call" and rng.name == "range" and len(rng.args) == 2 and \
             rng.args[1].op == "binop" and rng.args[1].name == "+" and rng.args[1].args[0].key() == rng.args[0].key() and \
             T.find(rng.args[1].args[1], lambda x: x.op == "call" and x.name == "len") is not None
@@ -427,7 +435,13 @@ def _rows(repo, col, fi, ex):
             (cnt.op == "call" and cnt.name == "len" and cnt.args[0].key() == s_.base.key()) or
             (cnt.op == "sub" and cnt.args[0].op == "attr" and cnt.args[0].name == "shape" and cnt.args[0].args[0].key() == s_.base.key() and
              cnt.args[1].op == "const" and cnt.args[1].name == 0))
-        dense = dense or (val.op == "attr" and val.name == "index" and T.find(val, lambda x: x.op == "mcall" and x.name == "reset_index") is not None)
+        # the row labels of a table whose labels were just reset ARE 0 .. n-1: `.index`, `.index.to_numpy()`, `.index.values`
+        v2 = val
+        while (v2.op == "mcall" and v2.name in ("to_numpy", "tolist", "to_list", "copy") and len(v2.args) == 1) or (v2.op == "attr" and v2.name == "values"):
+            v2 = v2.args[0]
+        relabelled = lambda t_: T.find(t_, lambda x: (x.op == "mcall" and x.name == "reset_index") or
+                                       (x.op == "mcall" and x.name == "concat" and x.kw.get("ignore_index") is not None and x.kw["ignore_index"].name is True)) is not None
+        dense = dense or (v2.op == "attr" and v2.name == "index" and v2.args[0].key() == s_.base.key() and relabelled(v2))
         col.check(dense, R, fi, "global_comp_index is renumbered densely", "0 .. number of rows - 1 of the rebuilt table",
                   f"global_comp_index of the rebuilt table is set to {val.short(80)}, not to 0 .. (number of rows - 1)", node=s_.node)
     # the new block has exactly the requested number of rows
